@@ -113,6 +113,29 @@ pub fn generate(rng: &mut Rng, tier: Tier) -> Plan {
             settle,
         });
     }
+    // sometimes a dual quote's own variable has the very name another plain quote will be
+    // given (fx_<pair>): a legal coincidence, the two then share one variable
+    if !float_only && rng.chance(0.05) {
+        let plain: Vec<String> = quotes
+            .iter()
+            .filter(|q| q.num.kind() == 0)
+            .map(|q| format!("fx_{}{}", q.lhs, q.rhs))
+            .collect();
+        if !plain.is_empty() {
+            let name = rng.pick(&plain).clone();
+            for q in quotes.iter_mut() {
+                match &mut q.num {
+                    Num::D { g, .. } | Num::D2 { g, .. } => {
+                        if !g.iter().any(|(n, _)| n == &name) {
+                            g[0].0 = name.clone();
+                        }
+                        break;
+                    }
+                    _ => {}
+                }
+            }
+        }
+    }
     rng.shuffle(&mut quotes);
     let base = if rng.chance(0.5) {
         Some(rng.pick(&ccys).clone())
